@@ -19,6 +19,16 @@ start `o` of the string: `countNL (slice s p o) = 0`.  For `${…}`, `<% %>` and
 construction; for tag attributes it is the guard of the `_partial` theorems; filter lists of expressions carry
 their own offset (`escapesLinenoOffset`, /repo 78adfd6) and need no guard.
 
+Contents: (1) Python-level faults – `python_error_line_{expr, block, ctl, filter}` (full), `…_signature_partial`,
+`…_attribute_partial` (+ counterexamples), `leading_newlines_are_leading_blank_lines`,
+`adjust_whitespace_keeps_leading_blank_lines`; (2) structural faults – `structural_error_position` and its `_partial` /
+`_counterexample` corollaries, `node_fault_position`, and the two obligations on the regenerated table of ALL raise sites
+of `SyntaxException` / `CompileException` (`every_raise_site_is_a_fault_class`: each is a fault class the generator
+plants or is listed as outside; `raise_sites_report_their_own_node`: none takes its coordinates from a variable of an
+enclosing function); (3) construction paths – `path_independent` (definitional), `error_names_template`, and the reload
+path of a lookup: `reload_converts_no_compile_error` (regenerated handler classes of `TemplateLookup._check`),
+`path_independent_reload_of`, `path_independent_all_paths`, `path_independent_reload_counterexample`.
+
 OPEN (stated as comment blocks below, each with a `_partial` theorem and a kernel-evaluated `_counterexample`):
 * F7  – Python in tag attributes (signatures, `${}` in attributes, `<%call expr>`, `<%include args>`, `filter=`) that
         do not start on the tag's first line is reported too early;
@@ -319,6 +329,10 @@ example : (lex Cfg.fixed (lit "abc\n  <%include\n bogus='1'/>")).outcome = .ok
     outside, with the reason): a new or renamed raise site breaks this obligation by name. -/
 theorem every_raise_site_is_a_fault_class :
     Generated.ErrPos.raiseSites.all (fun s => (siteClass s).isSome) = true := by decide +kernel
+
+/-- the table has one row per regenerated raise site, keyed by exactly that site (file, function, message prefix) -/
+example : siteClassTable.map (·.1) = Generated.ErrPos.raiseSites.map (fun s => (s.1, s.2.1, s.2.2.1))
+    ∧ siteClassTable.length = 35 := by decide +kernel
 
 /-- **every raise site takes its coordinates from the node its own function is about** – `self.exception_kwargs`,
     the `exception_kwargs` of one of the function's own parameters, or explicit values – never from a variable of an
